@@ -80,6 +80,10 @@
 #include <fcppt/variant/get_unsafe.hpp>
 #include <fcppt/variant/holds_type.hpp>
 #include <fcppt/variant/match.hpp>
+#include <fcppt/variant/dynamic_cast.hpp>
+#include <fcppt/cast/dynamic_fun.hpp>
+#include <fcppt/cast/dynamic_cross_fun.hpp>
+#include <fcppt/mpl/list/object.hpp>
 #include <fcppt/variant/object.hpp>
 #include <fcppt/variant/to_optional.hpp>
 #include <fcppt/variant/to_optional_ref.hpp>
@@ -2192,6 +2196,141 @@ void v_compare()
   }();
 }
 
+
+// variant::dynamic_cast_<(T_1..T_n), Cast>(base): documented as "tries to cast to T_1 first, if this fails to T_2, and so
+// on; the result of the FIRST cast that succeeds is returned" (nothing if none does).  The tagged-union reading: the
+// alternative held is the first T_i the object is an instance of, and it refers to the very object passed in.
+// Type lists in which several types fit the same object (a class and its bases) decide between first and last.
+namespace dc
+{
+struct root
+{
+  root() = default;
+  root(root const &) = delete;
+  root &operator=(root const &) = delete;
+  virtual ~root() = default;
+};
+struct mid : root {};
+struct leaf : mid {};
+struct side : root {};
+struct other_base
+{
+  other_base() = default;
+  other_base(other_base const &) = delete;
+  other_base &operator=(other_base const &) = delete;
+  virtual ~other_base() = default;
+};
+struct other_base2
+{
+  other_base2() = default;
+  other_base2(other_base2 const &) = delete;
+  other_base2 &operator=(other_base2 const &) = delete;
+  virtual ~other_base2() = default;
+};
+struct both : leaf, other_base {};
+struct both2 : leaf, other_base, other_base2 {};
+
+template <class T>
+bool fits(root &r) { return dynamic_cast<T *>(&r) != nullptr; }
+
+template <class Cast, class... Ts>
+void one_list(char const *castname, char const *listname, root &obj, char const *objname)
+{
+  using types = fcppt::mpl::list::object<Ts...>;
+  std::string const key = std::string("variant::dynamic_cast_/") + castname + "/(" + listname + ")";
+  if (!vf::begin_case("cast=%s list=(%s) object=%s", castname, listname, objname))
+    return;
+  vf::sample_case(2);
+  vf::note_distinct(vf::hash_str(key + objname));
+  auto const res = fcppt::variant::dynamic_cast_<types, Cast>(obj);
+  bool const fit[] = {fits<Ts>(obj)...};
+  int want = -1;
+  for (int i = 0; i < static_cast<int>(sizeof...(Ts)); ++i)
+    if (fit[i])
+    {
+      want = i;
+      break;
+    }
+  int nfit = 0;
+  for (bool b : fit)
+    nfit += b ? 1 : 0;
+  VF_COUNT("dynamic_cast/cases");
+  if (nfit >= 2)
+    VF_COUNT("dynamic_cast/several-types-fit");
+  if (want < 0)
+  {
+    VF_COUNT("dynamic_cast/no-type-fits");
+    if (res.has_value())
+      vf::violation(key + "/present-for-unrelated-object", "mismatch", std::string("object=") + objname);
+    return;
+  }
+  if (!res.has_value())
+  {
+    vf::violation(key + "/absent-although-a-type-fits", "mismatch", std::string("object=") + objname);
+    return;
+  }
+  int const got = static_cast<int>(res.get_unsafe().type_index());
+  if (got != want)
+    vf::violation(key + "/not-the-first-successful-cast", "mismatch",
+                  std::string("object=") + objname + " held alternative #" + std::to_string(got) + ", first fitting type is #" + std::to_string(want));
+  // the reference held is the object itself
+  void const *const held = fcppt::variant::apply(
+      [](auto const &ref) -> void const * { return dynamic_cast<void const *>(&ref.get()); }, res.get_unsafe());
+  if (held != dynamic_cast<void const *>(&obj))
+    vf::violation(key + "/refers-to-another-object", "mismatch", std::string("object=") + objname);
+}
+
+template <class Cast>
+void all_lists(char const *castname)
+{
+  root r;
+  mid m;
+  leaf l;
+  side sd;
+  both b;
+  struct named
+  {
+    root *o;
+    char const *n;
+  } const objs[] = {{&r, "root"}, {&m, "mid"}, {&l, "leaf"}, {&sd, "side"}, {static_cast<leaf *>(&b), "both"}};
+  for (named const &o : objs)
+  {
+    one_list<Cast, leaf, side>(castname, "leaf,side", *o.o, o.n);
+    one_list<Cast, leaf, mid>(castname, "leaf,mid", *o.o, o.n);
+    one_list<Cast, mid, leaf>(castname, "mid,leaf", *o.o, o.n);
+    one_list<Cast, side, mid, leaf>(castname, "side,mid,leaf", *o.o, o.n);
+    one_list<Cast, leaf, mid, root>(castname, "leaf,mid,root", *o.o, o.n);
+    one_list<Cast, root, mid, leaf>(castname, "root,mid,leaf", *o.o, o.n);
+    one_list<Cast, side, leaf>(castname, "side,leaf", *o.o, o.n);
+    one_list<Cast, mid>(castname, "mid", *o.o, o.n);
+  }
+}
+}
+
+void v_dynamic_cast()
+{
+  std::string const entry = "variant::dynamic_cast_";
+  if (!vf::entry_enabled(entry))
+    return;
+  vf::set_entry(entry);
+  dc::all_lists<fcppt::cast::dynamic_fun>("dynamic_fun");
+  // cross casts (dynamic_cross_fun is for types unrelated to the static type of the argument)
+  dc::both b;
+  dc::both2 b2;
+  dc::leaf l;
+  struct named
+  {
+    dc::root *o;
+    char const *n;
+  } const objs[] = {{static_cast<dc::leaf *>(&b), "both"}, {static_cast<dc::leaf *>(&b2), "both2"}, {&l, "leaf"}};
+  for (named const &o : objs)
+  {
+    dc::one_list<fcppt::cast::dynamic_cross_fun, dc::other_base, dc::other_base2>("dynamic_cross_fun", "other_base,other_base2", *o.o, o.n);
+    dc::one_list<fcppt::cast::dynamic_cross_fun, dc::other_base2, dc::other_base>("dynamic_cross_fun", "other_base2,other_base", *o.o, o.n);
+    dc::one_list<fcppt::cast::dynamic_cross_fun, dc::other_base2>("dynamic_cross_fun", "other_base2", *o.o, o.n);
+  }
+}
+
 // monad::chain / do_ / return_: neither named by the statement nor anchored -> observed
 void m_observed()
 {
@@ -2267,6 +2406,7 @@ void vf_slice_2()
   v_match_apply();
   v_to_optional();
   v_compare();
+  v_dynamic_cast();
   m_observed();
 }
 #endif
